@@ -92,10 +92,13 @@ Definition dec_event (tg : list tacc) (codes : list (N * bytes)) (s : syncer) (e
   | SL [SI 1%Z; id; SL sets; hp; lm; ok; more] =>
       match sx_N id with
       | Some id' =>
-          let accounts := match find_req id' s with Some q => q_accounts q | None => [] end in
-          match dec_sets tg accounts sets, sx_bool hp, sx_bool lm, sx_bool ok, sx_bool more with
-          | Some st, Some a, Some b, Some c, Some d => Some (ESto id' st a b c d)
-          | _, _, _, _, _ => None
+          match find_req id' s with
+          | None => Some (ESto id' [] false false false false)   (* stale: ignored by [handle] *)
+          | Some q =>
+              match dec_sets tg (q_accounts q) sets, sx_bool hp, sx_bool lm, sx_bool ok, sx_bool more with
+              | Some st, Some a, Some b, Some c, Some d => Some (ESto id' st a b c d)
+              | _, _, _, _, _ => None
+              end
           end
       | None => None
       end
